@@ -426,30 +426,76 @@ def fan_triangulation(k):
 
 
 # ------------------------------------------------------------------------------------------ mesh building
+# "Stale attribute blackboard" mode (set by the runner for tasks carrying "_stale_blackboard"): the builders first
+# build the mesh on an affinely distorted copy of the requested geometry, request every persistent quantity of
+# mouette.attributes on it (what an earlier stage of a user's pipeline leaves behind), and only then move the
+# vertices to the requested positions through the public container API. Everything a check then asks must describe
+# the CURRENT geometry; code that silently reuses an attribute computed earlier gives itself away.
+STALE = [False]
+
+
+def _p3(p):
+    return (float(p[0]), float(p[1]), float(p[2]) if len(p) > 2 else 0.)
+
+
+def _distort(p):
+    x, y, z = _p3(p)
+    return (2 * x + y + 1, 3 * y - z, z + 0.5 * x + 2)     # invertible affine map (det 5.5): keeps elements non-degenerate
+
+
+def request_all_persistent_attributes(mesh):
+    """Calls every function of mouette.attributes that accepts the mesh alone (default arguments = persistent)."""
+    import mouette as M, warnings
+    made = 0
+    for name in sorted(dir(M.attributes)):
+        if name.startswith("_") or name.startswith(("interpolate", "average", "scatter", "generate")):
+            continue
+        fn = getattr(M.attributes, name)
+        if not callable(fn) or isinstance(fn, type):
+            continue
+        try:
+            with warnings.catch_warnings():
+                warnings.simplefilter("ignore")
+                fn(mesh)
+            made += 1
+        except Exception:   # noqa: not applicable to this mesh type / needs more arguments
+            pass
+    return made
+
+
+def _finish(mesh, points):
+    if STALE[0]:
+        import mouette as M
+        request_all_persistent_attributes(mesh)
+        for i, p in enumerate(points):
+            mesh.vertices[i] = M.Vec(*_p3(p))
+    return mesh
+
+
 def build_surface(points, faces, container=list, edges=None):
     import mouette as M
     raw = M.mesh.RawMeshData()
-    raw.vertices += [M.Vec(float(p[0]), float(p[1]), float(p[2]) if len(p) > 2 else 0.) for p in points]
+    raw.vertices += [M.Vec(*(_distort(p) if STALE[0] else _p3(p))) for p in points]
     if edges:
         raw.edges += [container(e) for e in edges]
     raw.faces += [container(f) for f in faces]
-    return M.mesh.SurfaceMesh(raw)
+    return _finish(M.mesh.SurfaceMesh(raw), points)
 
 
 def build_volume(points, cells, container=list):
     import mouette as M
     raw = M.mesh.RawMeshData()
-    raw.vertices += [M.Vec(float(p[0]), float(p[1]), float(p[2])) for p in points]
+    raw.vertices += [M.Vec(*(_distort(p) if STALE[0] else _p3(p))) for p in points]
     raw.cells += [container(c) for c in cells]
-    return M.mesh.VolumeMesh(raw)
+    return _finish(M.mesh.VolumeMesh(raw), points)
 
 
 def build_polyline(points, edges, container=list):
     import mouette as M
     raw = M.mesh.RawMeshData()
-    raw.vertices += [M.Vec(float(p[0]), float(p[1]), float(p[2]) if len(p) > 2 else 0.) for p in points]
+    raw.vertices += [M.Vec(*(_distort(p) if STALE[0] else _p3(p))) for p in points]
     raw.edges += [container(e) for e in edges]
-    return M.mesh.PolyLine(raw)
+    return _finish(M.mesh.PolyLine(raw), points)
 
 
 def sphere_lattice_points(n):
